@@ -22,8 +22,13 @@ for sd in "${seeds[@]}"; do
     rp=$(echo "$line" | sed -n 's/.*replay=\([^ ]*\).*/\1/p')
     case "$rp" in
       *.ops) mkdir -p "$OUT/$prop"
-             { echo "# failing input harvested from the seeded change $sd (passes on the unchanged tree)"; grep -v '^#' "$rp" | sed '/^end/q'; } > "$OUT/$prop/seed-$sd.ops"
-             echo "$sd: harvested $(wc -l < "$OUT/$prop/seed-$sd.ops") lines";;
+             suite=$(grep -m1 '^case ' "$rp" | awk '{print $3}')
+             case "$suite" in
+               hubsubs|shutdown|serverconc) echo "$sd: suite $suite re-generates its cases on replay: not harvested";;
+               *) f="$OUT/$prop/$suite-seed-$sd.ops"
+                  { echo "# failing input harvested from the seeded change $sd (passes on the unchanged tree)"; grep -v '^#' "$rp" | sed '/^end/q'; } > "$f"
+                  echo "$sd: harvested $(wc -l < "$f") lines ($suite)";;
+             esac;;
       *) echo "$sd: no .ops replay ($line)";;
     esac
   else
